@@ -67,7 +67,7 @@ def sort_axis(ctx, shape, axis, lkind, key=None, dkind='f'):
     return ctx.done(ctx.AND(*oks), ctx.observe(res))
 
 
-def take_axis(ctx, shape, axis, lkind, k, indexing='label', form='list', mode=None):
+def take_axis(ctx, shape, axis, lkind, k, indexing='label', form='list', mode=None, negative=False):
     nd = len(shape)
     lkinds = ['i', 'U', 'f', 'i'][:nd]
     kw, pos = _axarg(DIMS[:nd], axis)
@@ -79,8 +79,12 @@ def take_axis(ctx, shape, axis, lkind, k, indexing='label', form='list', mode=No
         src = [find(labels[pos], q) for q in qs]
         idx = list(qs) if form == 'list' else ctx.nparray(qs, kind=lkind)
     else:
-        src = [ctx.choice('p%d' % j, n) for j in range(k)]
-        idx = list(src) if form == 'list' else ctx.nparray(src, kind='i')
+        if negative:          # NumPy's rule for positions: -n..-1 count from the end
+            raw = [ctx.choice('p%d' % j, 2 * n) - n for j in range(k)]
+        else:
+            raw = [ctx.choice('p%d' % j, n) for j in range(k)]
+        src = [p % n for p in raw]
+        idx = list(raw) if form == 'list' else ctx.nparray(raw, kind='i')
         kw['indexing'] = 'position'
     r = ctx.call(lambda: a.take_axis(idx, **kw))
     if any(s is None for s in src):
@@ -101,12 +105,12 @@ def compress_axis(ctx, shape, axis):
     return ctx.done(same(ctx, r[1], _select_axis(ref, pos, [j for j, b in enumerate(bits) if b]), attrs=attrs), ctx.observe(r[1]))
 
 
-def dropna(ctx, shape, axis, minvalid=None, lkind='i'):
+def dropna(ctx, shape, axis, minvalid=None, lkind='i', inf=False):
     nd = len(shape)
     lkinds = ['i', 'U', 'f', 'i'][:nd]
     kw, pos = _axarg(DIMS[:nd], axis)
     lkinds[pos] = lkind
-    a, ref, dims, labels, attrs = _build(ctx, shape, lkinds, 'f', nan=True)
+    a, ref, dims, labels, attrs = _build(ctx, shape, lkinds, 'f', nan=True, inf=inf)
     if minvalid is not None:
         kw['minvalid'] = minvalid
     r = ctx.call(lambda: a.dropna(**kw))
@@ -128,9 +132,9 @@ def dropna(ctx, shape, axis, minvalid=None, lkind='i'):
     return ctx.done(same(ctx, r[1], _select_axis(ref, pos, keep), attrs=attrs), ctx.observe(r[1]))
 
 
-def fillna(ctx, shape, dkind='f', inplace=False, vkind='f'):
+def fillna(ctx, shape, dkind='f', inplace=False, vkind='f', inf=False):
     nd = len(shape)
-    a, ref, dims, labels, attrs = _build(ctx, shape, ['i', 'U', 'f', 'i'][:nd], dkind, nan=(dkind == 'f'))
+    a, ref, dims, labels, attrs = _build(ctx, shape, ['i', 'U', 'f', 'i'][:nd], dkind, nan=(dkind == 'f'), inf=inf)
     v = ctx.real('fill') if vkind == 'f' else ctx.int('fill')
     r = ctx.call(lambda: a.fillna(v, inplace=True) if inplace else a.fillna(v))
     if r[0] != 'ok':
@@ -140,9 +144,9 @@ def fillna(ctx, shape, dkind='f', inplace=False, vkind='f'):
     return ctx.done(same(ctx, res, Ref(dims, labels, exp), attrs=attrs), ctx.observe(res), inplace=inplace)
 
 
-def setna(ctx, shape, how, dkind='f', inplace=False):
+def setna(ctx, shape, how, dkind='f', inplace=False, inf=False):
     nd = len(shape)
-    a, ref, dims, labels, attrs = _build(ctx, shape, ['i', 'U', 'f', 'i'][:nd], dkind, nan=(dkind == 'f' and how != 'mask'))
+    a, ref, dims, labels, attrs = _build(ctx, shape, ['i', 'U', 'f', 'i'][:nd], dkind, nan=(dkind == 'f' and how != 'mask'), inf=inf)
     mk = (lambda n: ctx.real(n)) if dkind == 'f' else (lambda n: ctx.int(n))
     if how == 'scalar':
         vs = [mk('m0')]
@@ -225,5 +229,16 @@ def templates():
         for dk in 'fi':
             add('setna-%s-%s' % (how, dk), 'setna', cost=3, shape=[3], how=how, dkind=dk)
             add('setna-%s-%s-2d' % (how, dk), 'setna', cost=6, shape=[2, 2], how=how, dkind=dk, inplace=True)
+    # +-inf are values, not missing data
+    add('fillna-inf-1d', 'fillna', cost=1, shape=[3], inf=True)
+    add('fillna-inf-2d', 'fillna', cost=3, shape=[2, 2], inf=True, inplace=True)
+    add('dropna-inf-1d', 'dropna', cost=1, shape=[3], axis=0, inf=True)
+    add('dropna-inf-2d', 'dropna', cost=3, shape=[2, 2], axis=1, inf=True)
+    add('dropna-inf-2d-mv1', 'dropna', cost=3, shape=[2, 2], axis=0, minvalid=1, inf=True)
+    add('setna-inf-1d', 'setna', cost=2, shape=[3], how='scalar', inf=True)
+    # negative positions count from the end
+    for shape, axis in (([3], 0), ([2, 3], 1), ([3, 2], 'name0'), ([2, 2, 3], -1)):
+        for form in ('list', 'array'):
+            add('take-negpos-%s-%s-%s' % ('x'.join(map(str, shape)), axis, form), 'take_axis', cost=1.5, shape=shape, axis=axis, lkind='U', k=2, indexing='position', form=form, negative=True)
     add('fillna-int-value', 'fillna', cost=0.5, shape=[2, 2], dkind='f', vkind='i')
     return ts
